@@ -775,8 +775,45 @@ fn missing_output_setup(cx: &mut Ctx) {
 	assert_eq!(refresh(&cx.scen, CP), 0);
 }
 
+/// The wallet under test is lost and restored from its recovery phrase: a new, empty database
+/// (next key index 0) while the chain holds its earlier outputs; two payments wait to be received.
+fn restored_setup(cx: &mut Ctx) {
+	fund(cx, W, 2);
+	fund(cx, CP, 3);
+	settle(cx, 4);
+	let phrase: String = {
+		let mut l = cx.scen.wallets[W].inst.lock();
+		let lc = l.lc_provider().unwrap();
+		let p = (&*lc.get_mnemonic(None, ZeroingString::from("")).unwrap()).to_owned();
+		let _ = lc.close_wallet(None);
+		p
+	};
+	std::fs::remove_dir_all(format!("{}/{}", cx.scen.dir, NAMES[W])).unwrap();
+	let mut wallet = new_inst(&cx.scen.node, &cx.scen.dir, NAMES[W]);
+	let m = {
+		let lc = wallet.lc_provider().unwrap();
+		lc.create_wallet(None, Some(ZeroingString::from(phrase.as_str())), 32, ZeroingString::from(""), false)
+			.unwrap();
+		lc.open_wallet(None, ZeroingString::from(""), false, false).unwrap()
+	};
+	cx.scen.wallets[W] = vharness::scen::W {
+		name: NAMES[W].to_string(),
+		inst: Arc::new(Mutex::new(wallet)),
+		mask: m,
+	};
+	send_from(cx, CP, W, 0, 3_000_000_000, false, false, 0);
+	send_from(cx, CP, W, 1, 2_000_000_000, false, false, 0);
+}
+
 fn scenarios() -> Vec<Scenario> {
 	vec![
+		Scenario {
+			name: "restored_scan_receive2",
+			what: "wallet restored from its phrase (empty database, outputs on chain beyond its key index); scan || receive || receive",
+			nslots: 2,
+			threads: vec!["scan:0", "receive:0", "receive:1"],
+			setup: restored_setup,
+		},
 		Scenario {
 			name: "send_nochange_finalize",
 			what: "sender, no change output, payment proof; locked in setup; refresh || finalize || post+mine",
